@@ -37,9 +37,9 @@ func c18doc(nsvc, nplace, nprof, nexpose int) (*v2, []c18decl) {
 		mem, sto := verif_U64("memory"), verif_U64("storage")
 		verif_Assume(verif_And(cpu >= 10, cpu <= 10000, mem >= 1<<20, mem <= 16<<30, sto >= 5<<20, sto <= 1<<40)) // a valid document
 		doc.Profiles.Compute[c18profNames[p]] = v2ProfileCompute{Resources: &v2ComputeResources{
-			CPU:     &v2ResourceCPU{Units: cpuQuantity(cpu)},
+			CPU:     &v2ResourceCPU{Units: cpuQuantity(cpu), Attributes: v2CPUAttributes{{Key: "arch", Value: verif_Str("cpu-arch", 1)}}},
 			Memory:  &v2ResourceMemory{Quantity: byteQuantity(mem)},
-			Storage: &v2ResourceStorage{Quantity: byteQuantity(sto)},
+			Storage: &v2ResourceStorage{Quantity: byteQuantity(sto), Attributes: v2StorageAttributes{{Key: "class", Value: verif_Str("storage-class", 1)}}},
 		}}
 	}
 	for l := 0; l < nplace; l++ {
@@ -122,6 +122,20 @@ func c18strs(a, b []string) bool {
 func c18units(a types.ResourceUnits, c *v2ComputeResources) bool {
 	if a.CPU == nil || a.Memory == nil || a.Storage == nil {
 		return false
+	}
+	// resource attributes (cpu architecture, storage class) are part of what the tenant declared
+	if len(a.CPU.Attributes) != len(c.CPU.Attributes) || len(a.Storage.Attributes) != len(c.Storage.Attributes) || len(a.Memory.Attributes) != len(c.Memory.Attributes) {
+		return false
+	}
+	for i := range c.CPU.Attributes {
+		if a.CPU.Attributes[i].Key != c.CPU.Attributes[i].Key || a.CPU.Attributes[i].Value != c.CPU.Attributes[i].Value {
+			return false
+		}
+	}
+	for i := range c.Storage.Attributes {
+		if a.Storage.Attributes[i].Key != c.Storage.Attributes[i].Key || a.Storage.Attributes[i].Value != c.Storage.Attributes[i].Value {
+			return false
+		}
 	}
 	return verif_And(a.CPU.Units.Val.Equal(sdk.NewIntFromUint64(uint64(c.CPU.Units))),
 		a.Memory.Quantity.Val.Equal(sdk.NewIntFromUint64(uint64(c.Memory.Quantity))),
